@@ -139,6 +139,7 @@ THEOREMS = [
     "Verif.C18.datetime_roundtrip",
     "Verif.C18.datetime_negative_refused",
     "Verif.C18.decode_sound",
+    "Verif.C18.decode_complete",
     "Verif.C18.legacy_frame_ranges",
     "Verif.C18.export_selection_frames",
     "Verif.C18.export_selection_index",
@@ -161,6 +162,10 @@ THEOREMS = [
     "Verif.C18.program_reexport",
     "Verif.C18.kymo_frame_range",
     "Verif.C18.kymo_frame_range_ordered",
+    "Verif.C18.export_tiff_no_images",
+    "Verif.C18.export_tiff_all_or_nothing",
+    "Verif.C18.export_tiff_page_count",
+    "Verif.C18.export_tiff_roundtrip",
 ]
 RULE = (
     "corpus + exhaustive small scope + seeded random + malformed stream. stack: real TIFF stacks written with tifffile "
@@ -1369,6 +1374,127 @@ def exposure_case(es, ms=(), start=None):
     return {"kind": "exposure", "start": bt.T0 if start is None else start, "e": [int(e) for e in es], "ms": [float(x).hex() for x in ms]}
 
 
+# ------------------------------------------------------------------ glue kind (export_tiff as a whole, hooks of any lengths)
+
+
+def glue_case(frames, dtype, clip, dead, exp):
+    return {"kind": "glue", "frames": [[str(Fraction(v)) for v in fr] for fr in frames], "dtype": dtype, "clip": clip,
+            "dead": [list(x) for x in dead], "exp": [list(x) for x in exp]}
+
+
+def glue_width(case):
+    return max([len(fr) for fr in case["frames"]] + [1])
+
+
+def impl_glue(case):
+    """TiffExport.export_tiff fed by a provider whose hooks return n frames (1 x k grey), m ranges with dead time and l
+    exposure ranges (n, m, l independent; dtype None / u8 / u16 / f32): `ok [codes|ms|pixels;...]` of the raw re-read, or
+    the error name; "?" while the mixin / its hooks are not reachable"""
+    obs = case["_obs"] = {}
+    TiffExport = export_mixin()
+    if TiffExport is None:
+        return ["?"]
+    k = glue_width(case)
+    arr = np.array([[float(Fraction(v)) for v in fr] for fr in case["frames"]], dtype=np.float64).reshape((len(case["frames"]), 1, k))
+    dead, exp = [tuple(x) for x in case["dead"]], [tuple(x) for x in case["exp"]]
+
+    class Provider(TiffExport):
+        def _tiff_frames(self, iterator=False):
+            return iter(arr) if iterator else arr
+
+        def _tiff_image_metadata(self):
+            return {"Camera": "verif"}
+
+        def _tiff_timestamp_ranges(self, include_dead_time):
+            return dead if include_dead_time else exp
+
+        def _tiff_writer_kwargs(self):
+            return {"software": "verif", "photometric": "minisblack"}
+
+    import logging
+
+    logging.getLogger("tifffile").setLevel(logging.CRITICAL)  # "contains no pages" of a page-less file is expected here
+    p = fresh("g")
+    try:
+        with warnings.catch_warnings():
+            warnings.simplefilter("ignore")
+            try:
+                Provider().export_tiff(p, dtype=DT_NP[case["dtype"]] if case["dtype"] != "none" else None, clip=case["clip"])
+            except Exception as e:
+                obs["error"] = repr(e)
+                return [errname(e)]
+            try:
+                raw = read_raw(p)
+            except Exception as e:  # a TIFF without a single page (zip() of an empty iterator): tifffile cannot open it
+                if os.path.getsize(p) <= 16:
+                    raw = []
+                else:
+                    obs["error"] = "re-read: " + repr(e)
+                    return [errname(e)]
+        obs["raw"] = raw
+        pages = []
+        for pg in raw:
+            ms = json.loads(pg["desc"]).get("Exposure time (ms)")
+            pages.append("|".join([",".join(str(ord(ch)) for ch in pg["dt"]), str(Fraction(float(ms))) if isinstance(ms, float) else "nokey",
+                                   ",".join(v if isinstance(v, str) else f"{v.numerator}/{v.denominator}" for v in arr_rats(pg["img"]))]))
+        return ["ok [" + ";".join(pages) + "]"]
+    finally:
+        rm(p)
+
+
+def ops_glue(case):
+    fr = "[" + ";".join(",".join(f"{Fraction(v).numerator}/{Fraction(v).denominator}" for v in f) for f in case["frames"]) + "]"
+    return [f"c18.exporttiff {case['dtype']} {enc_bool(case['clip'])} {fr} {enc_ranges2(case['dead'])} {enc_ranges2(case['exp'])}"]
+
+
+def glue_pages(ans):
+    inner = ans[4:-1]
+    out = []
+    for pg in inner.split(";") if inner else []:
+        dt, ms, img = pg.split("|")
+        out.append((dt, Fraction(ms) if ms != "nokey" else None, img))
+    return out
+
+
+def agree_glue(ia, ma):
+    if not (ia.startswith("ok [") and ma.startswith("ok [")):
+        return ia == ma
+    a, b = glue_pages(ia), glue_pages(ma)
+    return len(a) == len(b) and all(
+        x[0] == y[0] and x[2] == y[2] and x[1] is not None and abs(x[1] - y[1]) <= abs(y[1]) * Fraction(1, 10**12) for x, y in zip(a, b))
+
+
+def oracle_glue(case, ia):
+    if ia[0] == "?":
+        return None
+    obs = case.get("_obs", {})
+    frames = [[Fraction(v) for v in fr] for fr in case["frames"]]
+    dead, exp = case["dead"], case["exp"]
+    if not dead:
+        return None if ia[0] == "RuntimeError" else f"no-images: no timestamp ranges, but export gave {ia[0][:80]}"
+    if not (len(frames) == len(dead) == len(exp)) or not frames or not frames[0]:
+        return None  # hooks that disagree about the number of frames / empty images: the property says nothing (model agreement only)
+    flat = [v for fr in frames for v in fr]
+    want = flat if case["dtype"] == "none" else cast_reference(flat, case["dtype"], case["clip"])
+    if want == "RuntimeError":
+        return None if ia[0] == "RuntimeError" else f"cast-refusal: a value does not fit {case['dtype']} (clip=False) but export gave {ia[0][:80]}"
+    if "raw" not in obs:
+        return f"export-refused: all values fit (or clip=True / no dtype) but export raised {ia[0]}: {obs.get('error')}"
+    raw = obs["raw"]
+    if len(raw) != len(frames):
+        return f"selection: {len(raw)} pages written for {len(frames)} frames"
+    k = len(frames[0])
+    for i, pg in enumerate(raw):
+        if arr_rats(pg["img"]) != want[i * k : (i + 1) * k]:
+            return f"pixels: page {i} holds {arr_rats(pg['img'])}, expected {want[i * k:(i + 1) * k]} for {case['dtype']} clip={case['clip']}"
+        if pg["dt"] != f"{dead[i][0]}:{dead[i][1]}":
+            return f"timestamps: page {i} carries {pg['dt']!r} for range {dead[i][0]}:{dead[i][1]}"
+        e = exp[i][1] - exp[i][0]
+        if abs(e) <= EXPOSURE_EXACT and exposure_ns(pg) != e:
+            return f"exposure: page {i} carries {exposure_ns(pg)} ns for {e} ns"
+    return None
+
+
 # ------------------------------------------------------------------ datetime / legacy kinds
 
 
@@ -1517,6 +1643,8 @@ def impl(case):
         return impl_legacy(case)
     if k == "exposure":
         return impl_exposure(case)
+    if k == "glue":
+        return impl_glue(case)
     raise ValueError(k)
 
 
@@ -1534,6 +1662,8 @@ def ops(case):
         return [f"c18.legacy {enc_list([a for a, _ in case['ranges']])} {enc_list([b for _, b in case['ranges']])}"] * 2
     if k == "exposure":
         return ops_exposure(case)
+    if k == "glue":
+        return ops_glue(case)
     raise ValueError(k)
 
 
@@ -1544,6 +1674,8 @@ def agree(case, i, ia, ma):
         return True  # the derivation itself was refused (C06's business): nothing was exported, nothing to compare
     if ia == "not-written" and i > 0:
         return True  # the export was refused (op 0 compares that refusal with the model): there is no tag to read back
+    if case["kind"] == "glue":
+        return agree_glue(ia, ma)
     if (case["kind"] == "exposure" and i == 0 or case["kind"] in ("kymo", "scan") and i == 3) and ia.startswith("[") and ma.startswith("["):
         # the millisecond doubles: number policy (a double of the implementation within rel 1e-12 of the model's; `x / 1e6`
         # instead of `x * 1e-6` is the same exposure) - the integers read back (ops 1, 2) are compared exactly
@@ -1566,6 +1698,8 @@ def oracle(case, ia):
         return oracle_legacy(case, ia)
     if k == "exposure":
         return oracle_exposure(case, ia)
+    if k == "glue":
+        return oracle_glue(case, ia)
     raise ValueError(k)
 
 
@@ -1952,6 +2086,24 @@ def cases(tier, rng):
     yield dict(exposure_case([2**62, 2**62 + 2**61 - 12345, 2**60 + 1], ms=[1e9, 123456.789, 5e-7], start=0), stream="small-scope")
     yield dict(exposure_case([], ms=[0.0, 5e-7, 1.5e-6, 2.5e-6, 40.0, 0.0128, 1e-7, 4.9999999e-7]), stream="small-scope")
 
+    # ---------------- glue: export_tiff as a whole; hooks returning n frames, m ranges, l exposure ranges
+    for nf, nd, ne in itertools.product(range(0, 4), repeat=3):
+        frames = [[10 * j + 1, 10 * j + 2] for j in range(nf)]
+        dead = [[bt.T0 + 100 * j, bt.T0 + 100 * j + 100] for j in range(nd)]
+        exp = [[bt.T0 + 100 * j, bt.T0 + 100 * j + 40 + j] for j in range(ne)]
+        for dtype in ("none", "u8"):
+            yield dict(glue_case(frames, dtype, False, dead, exp), stream="small-scope")
+    for dtype, bad in (("u8", ["256", "-1", "511/2"]), ("u16", ["65536", "-1/4"]), ("f32", [str(2**128), "1/3"]), ("none", ["-7/2", "70000"])):
+        for b in bad:
+            for pos in range(6):  # the offending / fractional value in every position of every frame
+                flat = ["1", "2", "3", "4", "5", "6"]
+                flat[pos] = b
+                frames = [flat[0:2], flat[2:4], flat[4:6]]
+                dead = [[1000 * j, 1000 * j + 1000] for j in range(3)]
+                exp = [[1000 * j, 1000 * j + 700 + j] for j in range(3)]
+                for clip in (False, True):
+                    yield dict(glue_case(frames, dtype, clip, dead, exp), stream="small-scope")
+
     # ---------------- confocal: small scope
     conf = []
     levels = {"u8": [3, 60, 400], "u16": [3, 20000, 90000], "f32": [3, 2**22, 2**25]}
@@ -2114,6 +2266,20 @@ def cases(tier, rng):
             rr.append([t, t + sub.randint(0, 10**6)])
             t += sub.randint(0, 10**7)
         yield {"stream": "random", "kind": "legacy", "ranges": rr, "subseed": i}
+    r = rng.fork("c18-glue")
+    for i in range(60 if quick else 2000):
+        sub = r.fork(i)
+        dtype = sub.choice(["none", "u8", "u16", "f32"])
+        pool = [v for v in BOUNDARY_VALUES[dtype if dtype != "none" else "u16"] if f64_exact(v)]
+        nf, k = sub.randint(1, 4), sub.randint(1, 3)
+        frames = [[sub.choice(pool) if sub.chance(0.15) else str(sub.randint(0, 200)) for _ in range(k)] for _ in range(nf)]
+        nd = nf if sub.chance(0.8) else sub.randint(0, 4)
+        ne = nd if sub.chance(0.8) else sub.randint(0, 4)
+        t0 = sub.choice(TS_BOUNDARY[:-3] + [sub.randint(0, 2**62)])
+        per = sub.choice([1, 10, 1000, 10**9, sub.randint(1, 10**12)])
+        dead = [[t0 + j * per, t0 + (j + 1) * per] for j in range(nd)]
+        exp = [[t0 + j * per, t0 + j * per + sub.choice([0, 1, per, sub.randint(0, per), int(sub.loguniform(1, EXPOSURE_EXACT))])] for j in range(ne)]
+        yield dict(glue_case(frames, dtype, sub.chance(0.5), dead, exp), stream="random", subseed=i)
     r = rng.fork("c18-exposure")
     for i in range(40 if quick else 1500):
         sub = r.fork(i)
